@@ -31,7 +31,8 @@ THEOREMS = [
     # correlated scalar aggregate subqueries: laws of the nested-iteration operator, the decorrelated plan refuted twice
     "scalar_subquery_empty", "scalar_group_subquery_empty", "apply_scalar_agg_keeps_outer_rows",
     "decorr_scalar_agg_count_bug_unsound", "decorr_scalar_agg_duplicate_rows_unsound",
-    "exec_refines_spec_hashjoin", "exec_refines_spec_hashjoin_null_key_regression", "exec_refines_spec_hashjoin_int_width_unsound",
+    "exec_refines_spec_hashjoin_body", "exec_join_keys_comparable", "exec_refines_spec_hashjoin",
+    "exec_refines_spec_hashjoin_null_key_regression", "exec_refines_spec_hashjoin_int_width_regression",
     # shared with C11 (imported module RlModel.Thm.C11 is audited by ./check C11)
 ]
 
